@@ -55,21 +55,27 @@ CLAIMS.update({
                     "five genuine defects are known findings re-confirmed natively each run.",
             "note": "Assumes documented preconditions only. pkg/helpers and pkg/integrations kernels are outside this revision's claim. Trusted: go/ssa, symgo, z3.",
             "technique": TECH_FORK, "design_ref": "DESIGN.md section 4 (C20)"},
-    "C04": {"text": "Sequential clause: a mutation (any kind, any called set) issued from inside any handler call of a running transition is executed path by path "
-                    "through the real queueMutation/processQueue: it is never run nested, gets the next queue tick, is processed after the current transition, the queue "
-                    "is empty and released when the outer call returns, and WhenQueue(tick) closes once the tick was processed (not closing for canceled mutations is a "
-                    "known finding). The concurrent clause (several goroutines racing on the queue CAS) is NOT decided: it would need a partial-order encoding of two "
-                    "threads that this revision does not have.",
-            "note": MK_NOTE + " Race clause outside the claim (DESIGN.md section 5).", "technique": TECH_FORK, "design_ref": "DESIGN.md section 4 (C04)"},
-    "C06": {"text": "No lost or spurious wake-ups for When, WhenNot, WhenTime, WhenTicks, WhenNextActive, WhenQuery, WhenQueue and NewStateCtx over two mutations (plus "
-                    "auto mutations) with the subscription placed before the first transition, between its apply step and processSubscriptions (from a final handler) or "
-                    "after it, with and without a cancelation context; all paths of the real Subscriptions code. A spurious close of multi-state When on a swap is a known finding.",
+    "C04": {"text": "A mutation (any kind, any called set) issued from inside any handler call of a running transition - alone, after a CanAdd1 check from the same handler, or "
+                    "followed by an Eval whose context has already ended - is executed path by path through the real queueMutation/PrependMut/processQueue: never run nested, "
+                    "gets the next queue tick, is processed after the current transition, queue empty and released when the outer call returns, WhenQueue(tick) closes once "
+                    "the tick was processed (not closing for canceled mutations is a known finding). Two goroutines: the second caller's Add/Remove/Set runs as one atomic "
+                    "block at a symbolic statement boundary of the first caller's queueMutation/PrependMut/processQueue (source instrumented from the current tree; the "
+                    "schedule is one symbolic boolean per point, z3 decides which are feasible; replayed natively by pausing the first goroutine at that statement): one "
+                    "transition at a time, tick order, nothing stranded. The stranded-mutation window of processQueue was found this way and repaired (fix: cd7525f).",
+            "note": MK_NOTE + " Schedules: 2 goroutines, one context switch into the second and back, only at statement boundaries of the three instrumented functions where "
+                    "the first holds no mutex; finer-grained or longer interleavings are outside the claim.", "technique": TECH_FORK + "; the schedule point is a symbolic variable",
+            "design_ref": "DESIGN.md A.6 / section 4 (C04)"},
+    "C06": {"text": "No lost or spurious wake-ups for When, WhenNot, WhenTime, WhenTicks, WhenNextActive, WhenQuery, WhenQueue and NewStateCtx (incl. Multi re-activation) over two "
+                    "mutations (plus auto mutations) with the subscription placed before the first transition, between its apply step and processSubscriptions (from a final "
+                    "handler) or after it, with and without a cancelation context; two When/WhenNot subscriptions sharing one context on a 3-state machine; all paths of the "
+                    "real Subscriptions code. A spurious close of multi-state When on a swap is a known finding.",
             "note": MK_NOTE + " The three subscription positions are reached from the transition's own goroutine; a racing subscriber goroutine is reduced to them by the "
                     "activeStatesMx critical sections (not explored as schedules).", "technique": TECH_FORK, "design_ref": "DESIGN.md section 4 (C06)"},
-    "C08": {"text": "Fault kernel: a panic at any of the first six handler calls of one mutation is delivered the way handlerLoop's recover delivers it (on handlerPanic), "
-                    "so the real processHandlers, recoverToErr, recoverFinalPhase and the prepended Exception mutation run: Exception active, parity = activity, negotiation "
-                    "faults leave ticks untouched and cancel, the machine accepts the next mutation.",
-            "note": MK_NOTE + " Real panics, goroutine containment, timeouts/deadlines and double faults are outside the claim.", "technique": TECH_FORK,
+    "C08": {"text": "Fault kernel: a panic at any of the first six handler calls of one mutation - on a machine without an earlier fault, or with Exception still active from a "
+                    "first fault (sequence of two) - is delivered the way handlerLoop's recover delivers it (on handlerPanic), so the real processHandlers, recoverToErr, "
+                    "recoverFinalPhase and the prepended Exception mutation run: Exception (re)activated, parity = activity, negotiation faults leave ticks untouched and "
+                    "cancel, final-phase faults roll back incomplete activations (End handlers: known finding), the machine accepts the next mutation.",
+            "note": MK_NOTE + " Real panics, goroutine containment, timeouts/deadlines and longer fault sequences are outside the claim.", "technique": TECH_FORK,
             "design_ref": "DESIGN.md section 4 (C08)"},
     "C11": {"text": "Two executions of the same schema + pre-state + mutation with independently chosen iteration orders at the map ranges of NewAutoMutation, "
                     "TopologicalSort and ParseStates (one path per permutation, feasibility by z3) must agree on Result, machine time and handler sequence. The map-order "
@@ -77,12 +83,14 @@ CLAIMS.update({
             "note": MK_NOTE + " Natively a counterexample is confirmed by 48 re-executions.", "technique": TECH_FORK, "design_ref": "DESIGN.md section 4 (C11)"},
     "C13": {"text": "Dispose kernel: for every subset of outstanding waiters (When, WhenNot, WhenTime, WhenArgs, WhenQueue, WhenQuery, state context; shared ctx or none), "
                     "0..2 dispose handlers and a single or double DisposeForce, the real doDispose/Subscriptions.dispose release every waiter, run each handler once, close "
-                    "WhenDisposed, and later Add/Remove/Set/CanAdd/When* calls return neutral values.",
+                    "WhenDisposed, and later Add/Remove/Set/CanAdd/When* calls return neutral values; the same with DisposeForce landing inside a running transition (from "
+                    "the tracer hooks between its steps, from a negotiation handler, from a final handler).",
             "note": MK_NOTE + " Dispose() proper (forked, sleeping), handler-goroutine exit, concurrent dispose: outside the claim.", "technique": TECH_FORK,
             "design_ref": "DESIGN.md section 4 (C13)"},
     "C16": {"text": "Lookup kernels of the debugger's server.Client executed on symbolic streams: TxAtQueueTick, TxAtMachTime (real sort.Search / slices.BinarySearchFunc), "
-                    "HadErrSinceTx, TxIndex with its cache, Tx/TxParsed bounds and FilterIndexByCursor1 return what a linear scan of the same predicate returns, for every "
-                    "stream of up to 4 transitions with monotone 64-bit ticks / sums and every query value; no reachable panic.",
+                    "HadErrSinceTx, TxIndex with its cache (incl. ids that arrive after a miss), Tx/TxParsed bounds and FilterIndexByCursor1 return what a linear scan of the "
+                    "same predicate returns, for every stream of up to 4 transitions with monotone 64-bit ticks / sums and every query value; the debugger's hFilterTx never "
+                    "shows a record excluded by an active basic filter (auto, auto-canceled, canceled, queued, checks, empty) for any flag combination; no reachable panic.",
             "note": "Partial: hParseMsg derivations, TUI navigation, export/import and multi-client server are outside the claim. Trusted: go/ssa, symgo, z3.",
             "technique": TECH_FORK, "design_ref": "DESIGN.md section 4 (C16)"},
     "C19": {"text": "Every exported machine.Schema variable of the module (44 at the pinned commit, found by a go/types scan and dumped natively from the current source into "
